@@ -62,6 +62,12 @@ theorem abiGate_iff (impl : Option Impl) (t : PyAbi) :
       | none => rfl
       | some i => simpa using hg i rfl
 
+/-- the inputs of defect D28, evaluated in the kernel: `cp31` does not fit the ABI `cp310`, and the free-threaded debug
+    ABI `cp313td` fits `cp313` -/
+example : abiGate none { impl := "cp", major := "3", minor := "1", abiImpl := "cp310", pyLower := "cp31" } = false := by decide
+example : abiGate none { impl := "cp", major := "3", minor := "13", abiImpl := "cp313td", pyLower := "cp313" } = true := by decide
+example : abiGate none { impl := "pp", major := "3", minor := "2", abiImpl := "pp320", pyLower := "pp32" } = false := by decide
+
 /-- the interpreter versions the (python tag, abi tag) pair can run on, as a specifier -/
 def wheelSpec (t : PyAbi) : Option (Spec Ver) :=
   if t.abiImpl == "abi3" then abi3Range t else wheelRange t
